@@ -373,6 +373,7 @@ fn open_oracle_inner(c: &OpenCase, ctx: &mut Ctx, sim: &mut netsim::sim::Sim) ->
 
 fn main() {
 	install_recording_signer();
+	netsim::rec::tolerate_monitor_roundtrip_tripwire();
 	let mut c = Check::new("C09", "exploration");
 	c.assume("the Persist implementation follows the documented contract: a channel may switch to InProgress at any time and back to Completed only when nothing is in flight; completions are reported through ChainMonitor::channel_monitor_updated in any order");
 	c.assume("update step kinds are read from the derived Debug rendering of ChannelMonitorUpdate; an unknown step name aborts the run as inconclusive");
